@@ -50,6 +50,9 @@ struct SplitPacket {
 impl SplitPacket {
     fn new(engine: &Engine, protocol: u8, buffer: &mut Buffer<LittleEndian>) -> GDResult<Self> {
         let header = buffer.read()?; //buffer.get_u32()?;
+        if header != 0xFFFF_FFFE_u32 {
+            return Err(PacketBad.context("Expected a split packet header"));
+        }
         let id = buffer.read()?;
         let (total, number, size, decompressed) = match engine {
             Engine::GoldSrc(_) => {
@@ -167,6 +170,9 @@ impl ValveProtocol {
                 let new_data = self.socket.receive(Some(buffer_size))?;
                 buffer = Buffer::<LittleEndian>::new(&new_data);
                 let packet = SplitPacket::new(engine, protocol, &mut buffer)?;
+                if packet.id != packets[0].id {
+                    return Err(PacketBad.context("Received a fragment of another response"));
+                }
                 if packets.iter().any(|p| p.number == packet.number) {
                     continue; // a duplicated fragment
                 }
